@@ -945,3 +945,15 @@ def _path_returning_non_break(body, start, writes, rets):
                 prev[(s, st)] = node
                 q.append((s, st))
     return None
+
+
+# shared with C19 (seed C05-s8): a pattern followed by a trailing `/` (or by a literal `.`) lists directories only. The existence test
+# of the last component is fstatat(nofollow) = FileSystem::get of the simulated kernel, whose trailing-slash test must refuse every
+# file kind but a directory (a symbolic link included: get does not follow links)
+from rules.C19 import r19b as _c19_kind_tests_accept_directories_only
+RS.rules.append(Rule('C05.R8', 'K-TABLE', 'a pathname that ends with `/` or `/.` exists only if its last file is a directory: the path walk '
+                     'behind the existence tests of pathname expansion (fstatat / opendir of the simulated kernel -> FileSystem::get) lets no '
+                     'other FileBody variant through its kind tests - not a symbolic link either, since the walk does not follow links - so '
+                     '`d/*/` yields no links to regular files and no dangling links (C19.R19b)', _c19_kind_tests_accept_directories_only))
+RS.explanation += (' The scan loop over Dir::next is left only at the end-of-directory edge or with a Break (R7). The simulated path walk '
+                   'behind fstatat lets only a Directory through a trailing `/` or `/.` (R8 = C19.R19b).')
